@@ -65,6 +65,50 @@ def run(ctx):
     rep.coverage["exhaustive_slice_list"] = True
     rep.lap("slice_list")
 
+    # ---- the source text of slice_list itself -------------------------------------------
+    # tools/py2coq.py translates the function as it stands in the tree under test into a MiniPy term; the theorems of
+    # coq/src/SrcSliceProps.v (the term computes Sched.slice_list for every list and every n >= 1) are re-checked
+    # against that term, and the term is run by the kernel's VM on cases the real function ran above
+    sample = [k for k, j in enumerate(jobs) if len(j["list"]) in (0, 1, 2, 5, 9, 17, 40) and j["n"] in (1, 2, 3, 7, 9, 45)]
+    extra = [{"kind": "slice_list", "list": [1, 2], "n": 0}, {"kind": "slice_list", "list": [1, 2, 3], "n": -3},
+             {"kind": "slice_list", "list": [7, 8, 7], "n": 2}, {"kind": "slice_list", "list": [4, 4], "n": 1}]
+    status, xres = sc.run_worker("rw_worker", {"jobs": extra})
+    if status != "ok":
+        raise RuntimeError("slice_list worker: %r" % (xres,))
+    src_cases = [(jobs[k], res[k]) for k in sample] + list(zip(extra, xres))
+    cases_v = (
+        "Fixpoint enc_ints (l : list value) : list Z := match l with VInt z :: r => z :: enc_ints r | _ => [] end.\n"
+        "Definition enc_out (o : outcome) : list Z := match o with\n"
+        " | OReturn (VList parts) => 0 :: Z.of_nat (length parts) :: flat_map (fun p => match p with VList l => "
+        "Z.of_nat (length l) :: enc_ints l | _ => [-1] end) parts\n"
+        " | ORaise ExValue => [1; 1] | ORaise ExAssert => [1; 2] | ORaise _ => [1; 0] | OFuel => [2] | _ => [3] end.\n"
+        "Definition cases : list (list Z * Z) := [%s].\n"
+        "Eval vm_compute in (map (fun c => enc_out (call 100 slice_list_src [VList (map VInt (fst c)); VInt (snd c)])) cases).\n"
+        % "; ".join("([%s], %d)" % ("; ".join(map(str, j["list"])), j["n"]) for j, _ in src_cases))
+    sd = core.source_derived(sc, "Slice", cases_v)
+    core.fold_source_derived(ctx, sd, "ndl.slice_list")
+    if sd["translated"] and sd["cases_output"] is not None:
+        got = core.parse_coq_list(sd["cases_output"])
+        want = []
+        for j, r in src_cases:
+            if r["status"] == "ok":
+                enc = [0, len(r["value"])]
+                for part in r["value"]:
+                    enc += [len(part)] + list(part)
+                want.append(enc)
+            else:
+                want.append([1, {"ValueError": 1, "AssertionError": 2}.get(r["type"], 0)])
+        agree = got == want
+        rep.note("source_term_run_by_the_vm", {"cases": len(src_cases), "agrees_with_the_real_function": agree})
+        if not agree:
+            # the MiniPy reading of the source and CPython disagree: the source-derived theorems say nothing about the
+            # code any more (translator / semantics outside its fragment); they are not counted
+            core.log("NOTE: the MiniPy term of slice_list and the real function disagree on the sampled cases")
+            for t in ctx.props["theorems"]:
+                if t.get("source_derived"):
+                    t["assumptions"] = None
+    rep.lap("slice_list_source")
+
     # ---- event sets -------------------------------------------------------------------
     sets = []
     # exactly-once probes
